@@ -7,6 +7,7 @@ import (
 	"net"
 	"net/netip"
 	"os"
+	"strings"
 	"sync"
 	"sync/atomic"
 	"time"
@@ -305,6 +306,57 @@ func c04Loopback(c *Ctx) {
 		sender.Wait()
 		conn.Close()
 		time.Sleep(busy + 20*time.Millisecond) // anything still in flight inside the library gets the chance to blow up now
+	}
+
+	// ---- a listener on the wildcard address (the default): on a dual-stack host its socket also hears IPv6; whatever arrives that way -
+	// an event, junk - is a datagram like any other
+	for round := 0; round < c.N(2, 6); round++ {
+		port := freePort("0.0.0.0")
+		if port == 0 {
+			continue
+		}
+		addr := fmt.Sprintf("0.0.0.0:%d", port)
+		u := mkClient(ClientCfg{Bind: workerIP(c, 0) + ":0", Listen: addr, Timeout: time.Second})
+		var connected, events atomic.Int64
+		l := &c04Listener{connected: &connected, errRet: true, on: func(s *types.Status) { events.Add(1); _ = s.String() }}
+		q := make(chan os.Signal, 1)
+		done := make(chan error, 1)
+		go func() { done <- u.Listen(l, q) }()
+		for k := 0; k < 1000 && connected.Load() == 0; k++ {
+			time.Sleep(time.Millisecond)
+		}
+		if connected.Load() == 0 {
+			q <- os.Interrupt
+			continue
+		}
+		sent6 := 0
+		for _, target := range []string{fmt.Sprintf("[::1]:%d", port), fmt.Sprintf("127.0.0.1:%d", port), fmt.Sprintf("[::ffff:127.0.0.1]:%d", port)} {
+			conn, err := net.Dial("udp", target)
+			if err != nil {
+				continue
+			}
+			for k := 0; k < 6; k++ {
+				ev := r.Reply(rm.FindOp("GetStatus"), 0x17, 9000+uint32(k), rm.Vals{}, true)
+				if k%3 == 2 {
+					ev = ev[:1+r.Pick(63)]
+				}
+				if _, err := conn.Write(ev); err == nil && strings.HasPrefix(target, "[::1]") {
+					sent6++
+				}
+			}
+			conn.Close()
+		}
+		time.Sleep(30 * time.Millisecond)
+		q <- os.Interrupt
+		select {
+		case <-done:
+		case <-time.After(10 * time.Second):
+			c.Res.Inconcl("listener on the wildcard address did not stop within 10 s of the signal")
+		}
+		c.Res.Eval(1)
+		c.Res.DistinctKey("listener-wildcard", sent6 > 0)
+		c.Res.Count("loopback:wildcard-listener-cycles", 1)
+		c.Res.Count("loopback:datagrams-sent-to-the-wildcard-listener-over-ipv6", int64(sent6))
 	}
 
 	// ---- the application renders the events on goroutines of its own (the callback only queues them, so that the receiver is not
